@@ -6,6 +6,7 @@ import numpy as np
 from hypothesis import strategies as st
 
 from .. import gen, infer, series
+from .. import core
 from ..core import call, drive
 from ..nnls_kkt import reference_nnls
 from ..realise import make_frame
@@ -252,7 +253,7 @@ def check_dynamic(p, ctx):
             times = [0.0, dt]
         S = series.realise_series(tissues, nint, times, p["lab_seeds"], relabel=True)
         fsys = call(fs.ForSys, S.frames, cm=False)
-        mp = fsys.mesh.mapping.get(0)
+        mp = core.mesh_of(fsys).mapping.get(0)
         if mp is None or any(mp.get(S.vid(0, j)) != S.vid(1, j) for j in js):
             ctx.skip("tracking did not follow ground truth (C12)")
             return
